@@ -249,3 +249,471 @@ Proof.
   destruct (32768 <=? Z.of_N b0 * 256 + Z.of_N b1)%Z eqn:E;
     [apply Z.leb_le in E|apply Z.leb_gt in E]; split; apply Z.leb_le; lia.
 Qed.
+
+(* ------------------------------------------------------------------ list-valued immediates *)
+Lemma Nat2N_len : forall (A : Type) (l : list A), N.to_nat (nlen l) = List.length l.
+Proof. intros. unfold nlen. apply Nat2N.id. Qed.
+
+Lemma dec_bytes_roundtrip : forall strict bs rest,
+  u64_ok (nlen bs) = true -> dec_bytes strict (enc_bytes bs ++ rest) = Some (bs, rest).
+Proof.
+  intros strict bs rest H. unfold dec_bytes, enc_bytes. rewrite <- app_assoc.
+  rewrite uvarint_roundtrip by auto.
+  destruct (nlen (bs ++ rest) <? nlen bs) eqn:E.
+  - apply N.ltb_lt in E. rewrite nlen_app in E. lia.
+  - rewrite Nat2N_len. apply take_n_app.
+Qed.
+
+Lemma dec_bytes_strict_inv : forall buf bs rest,
+  dec_bytes true buf = Some (bs, rest) -> buf = enc_bytes bs ++ rest.
+Proof.
+  unfold dec_bytes, enc_bytes. intros buf bs rest H.
+  destruct (get_uvarint true buf) as [[len r]|] eqn:E; try discriminate.
+  destruct (nlen r <? len); try discriminate.
+  apply take_n_inv in H. destruct H as [H1 H2]. apply get_uvarint_strict_inv in E.
+  subst. rewrite <- app_assoc. f_equal. f_equal. unfold nlen. rewrite H2. symmetry. apply N2Nat.id.
+Qed.
+
+Lemma dec_bytes_strict_lax : forall buf r,
+  dec_bytes true buf = Some r -> dec_bytes false buf = Some r.
+Proof.
+  unfold dec_bytes. intros buf r H.
+  destruct (get_uvarint true buf) as [[len r']|] eqn:E; try discriminate.
+  rewrite (get_uvarint_strict_lax _ _ E). auto.
+Qed.
+
+Lemma dec_ints_roundtrip : forall strict l rest,
+  forallb u64_ok l = true ->
+  dec_ints strict (List.length l) (flat_map put_uvarint l ++ rest) = Some (l, rest).
+Proof.
+  induction l as [|x l IH]; intros rest H; [reflexivity|].
+  cbn [forallb] in H. apply andb_true_iff in H. destruct H as [H1 H2].
+  cbn [List.length flat_map dec_ints]. rewrite <- app_assoc.
+  rewrite uvarint_roundtrip by auto. rewrite IH by auto. reflexivity.
+Qed.
+
+Lemma dec_ints_strict_inv : forall n buf l rest,
+  dec_ints true n buf = Some (l, rest) ->
+  buf = flat_map put_uvarint l ++ rest /\ List.length l = n.
+Proof.
+  induction n; intros buf l rest H; cbn [dec_ints] in H.
+  - inversion H; subst. auto.
+  - destruct (get_uvarint true buf) as [[x r]|] eqn:E; try discriminate.
+    destruct (dec_ints true n r) as [[l' r']|] eqn:E2; try discriminate.
+    inversion H; subst. apply IHn in E2. destruct E2 as [E3 E4].
+    apply get_uvarint_strict_inv in E. subst. cbn [flat_map List.length].
+    rewrite <- app_assoc. auto.
+Qed.
+
+Lemma dec_ints_strict_lax : forall n buf r,
+  dec_ints true n buf = Some r -> dec_ints false n buf = Some r.
+Proof.
+  induction n; intros buf r H; cbn [dec_ints] in *; auto.
+  destruct (get_uvarint true buf) as [[x r']|] eqn:E; try discriminate.
+  rewrite (get_uvarint_strict_lax _ _ E).
+  destruct (dec_ints true n r') as [[l' r'']|] eqn:E2; try discriminate.
+  rewrite (IHn _ _ E2). auto.
+Qed.
+
+Lemma dec_bytess_roundtrip : forall strict l rest,
+  forallb (fun bs => u64_ok (nlen bs)) l = true ->
+  dec_bytess strict (List.length l) (flat_map enc_bytes l ++ rest) = Some (l, rest).
+Proof.
+  induction l as [|x l IH]; intros rest H; [reflexivity|].
+  cbn [forallb] in H. apply andb_true_iff in H. destruct H as [H1 H2].
+  cbn [List.length flat_map dec_bytess]. rewrite <- app_assoc.
+  rewrite dec_bytes_roundtrip by auto. rewrite IH by auto. reflexivity.
+Qed.
+
+Lemma dec_bytess_strict_inv : forall n buf l rest,
+  dec_bytess true n buf = Some (l, rest) ->
+  buf = flat_map enc_bytes l ++ rest /\ List.length l = n.
+Proof.
+  induction n; intros buf l rest H; cbn [dec_bytess] in H.
+  - inversion H; subst. auto.
+  - destruct (dec_bytes true buf) as [[x r]|] eqn:E; try discriminate.
+    destruct (dec_bytess true n r) as [[l' r']|] eqn:E2; try discriminate.
+    inversion H; subst. apply IHn in E2. destruct E2 as [E3 E4].
+    apply dec_bytes_strict_inv in E. subst. cbn [flat_map List.length].
+    rewrite <- app_assoc. auto.
+Qed.
+
+Lemma dec_bytess_strict_lax : forall n buf r,
+  dec_bytess true n buf = Some r -> dec_bytess false n buf = Some r.
+Proof.
+  induction n; intros buf r H; cbn [dec_bytess] in *; auto.
+  destruct (dec_bytes true buf) as [[x r']|] eqn:E; try discriminate.
+  rewrite (dec_bytes_strict_lax _ _ E).
+  destruct (dec_bytess true n r') as [[l' r'']|] eqn:E2; try discriminate.
+  rewrite (IHn _ _ E2). auto.
+Qed.
+
+Lemma dec_i16s_roundtrip : forall l rest,
+  forallb i16_ok l = true ->
+  dec_i16s (List.length l) (flat_map enc_i16 l ++ rest) = Some (l, rest).
+Proof.
+  induction l as [|x l IH]; intros rest H; [reflexivity|].
+  cbn [forallb] in H. apply andb_true_iff in H. destruct H as [H1 H2].
+  cbn [List.length flat_map]. rewrite <- app_assoc.
+  destruct (i16_roundtrip x (flat_map enc_i16 l ++ rest) H1) as [b0 [b1 [E1 [E2 _]]]].
+  rewrite E1. cbn [dec_i16s]. rewrite IH by auto. rewrite E2. reflexivity.
+Qed.
+
+Definition bytes_ok (l : list N) : Prop := Forall (fun b => b < 256) l.
+
+Lemma dec_i16s_strict_inv : forall n buf l rest,
+  bytes_ok buf -> dec_i16s n buf = Some (l, rest) ->
+  buf = flat_map enc_i16 l ++ rest /\ List.length l = n /\ bytes_ok rest.
+Proof.
+  induction n; intros buf l rest Hb H; cbn [dec_i16s] in H.
+  - inversion H; subst. auto.
+  - destruct buf as [|b0 [|b1 r]]; try discriminate.
+    destruct (dec_i16s n r) as [[l' r']|] eqn:E2; try discriminate.
+    inversion H; subst. inversion Hb as [|? ? Hb0 Hb']; subst. inversion Hb' as [|? ? Hb1 Hb'']; subst.
+    apply IHn in E2; auto. destruct E2 as [E3 [E4 E5]]. subst.
+    cbn [flat_map List.length]. rewrite i16_reencode by auto. auto.
+Qed.
+
+Lemma flat_map_put_uvarint_len : forall l, (List.length l <= List.length (flat_map put_uvarint l))%nat.
+Proof.
+  induction l; cbn [flat_map List.length]; [lia|]. rewrite app_length.
+  pose proof (put_uvarint_nonempty a). lia.
+Qed.
+
+Lemma flat_map_enc_bytes_len : forall l, (List.length l <= List.length (flat_map enc_bytes l))%nat.
+Proof.
+  induction l; cbn [flat_map List.length]; [lia|]. rewrite app_length.
+  unfold enc_bytes at 1. rewrite app_length. pose proof (put_uvarint_nonempty (nlen a)). lia.
+Qed.
+
+Lemma bytes_ok_app : forall a b, bytes_ok (a ++ b) <-> bytes_ok a /\ bytes_ok b.
+Proof. intros. unfold bytes_ok. apply Forall_app. Qed.
+
+(* ------------------------------------------------------------------ instructions *)
+Section CodecProofs.
+  Variable tbl : N -> N -> opspec * list opspec.
+  Variable grp : N -> list fspec.
+  Variable logic_ver : N.
+
+  Notation dec_imm := (dec_imm grp).
+  Notation dec_imms := (dec_imms grp).
+  Notation imm_wf := (imm_wf grp).
+  Notation imms_wf := (imms_wf grp).
+  Notation dec_instr := (dec_instr tbl grp).
+  Notation dec_instrs := (dec_instrs tbl grp).
+  Notation dec_prog := (dec_prog tbl grp logic_ver).
+  Notation wf_instr := (wf_instr tbl grp).
+  Notation wf_prog := (wf_prog tbl grp logic_ver).
+  Notation spec_of := (spec_of tbl).
+  Notation pick_spec := (pick_spec tbl).
+
+  Lemma dec_imm_roundtrip : forall strict plen im x rest,
+    imm_wf im x = true -> nlen (enc_imm x ++ rest) <= plen ->
+    dec_imm strict plen im (enc_imm x ++ rest) = Some (x, rest).
+  Proof.
+    intros strict plen im x rest Hwf Hlen. unfold AvmCodec.imm_wf in Hwf. unfold AvmCodec.dec_imm.
+    destruct (kind_of (im_kind im)) eqn:K; destruct x; try discriminate; cbn [enc_imm] in *.
+    - apply andb_true_iff in Hwf. destruct Hwf as [_ Hf]. cbn [app]. rewrite Hf. reflexivity.
+    - destruct (i16_roundtrip off rest Hwf) as [b0 [b1 [E1 [E2 _]]]]. rewrite E1. rewrite E2. reflexivity.
+    - rewrite uvarint_roundtrip by auto. reflexivity.
+    - rewrite dec_bytes_roundtrip by auto. reflexivity.
+    - apply andb_true_iff in Hwf. destruct Hwf as [H1 H2].
+      rewrite <- app_assoc. rewrite uvarint_roundtrip by auto.
+      destruct (plen <? nlen l) eqn:E.
+      + apply N.ltb_lt in E. rewrite !nlen_app in Hlen.
+        pose proof (flat_map_put_uvarint_len l). unfold nlen in *. lia.
+      + rewrite Nat2N_len. rewrite dec_ints_roundtrip by auto. reflexivity.
+    - apply andb_true_iff in Hwf. destruct Hwf as [H1 H2].
+      rewrite <- app_assoc. rewrite uvarint_roundtrip by auto.
+      destruct (plen <? nlen l) eqn:E.
+      + apply N.ltb_lt in E. rewrite !nlen_app in Hlen.
+        pose proof (flat_map_enc_bytes_len l). unfold nlen in *. lia.
+      + rewrite Nat2N_len. rewrite dec_bytess_roundtrip by auto. reflexivity.
+    - apply andb_true_iff in Hwf. destruct Hwf as [H1 H2].
+      rewrite <- app_comm_cons. rewrite Nat2N_len. rewrite dec_i16s_roundtrip by auto. reflexivity.
+    - rewrite varint_roundtrip by auto. reflexivity.
+  Qed.
+
+  Lemma enc_imm_nonempty : forall x, (1 <= List.length (enc_imm x))%nat.
+  Proof.
+    destruct x; cbn [enc_imm]; try (unfold enc_i16; simpl; lia); try (simpl; lia).
+    - unfold put_varint. apply put_uvarint_nonempty.
+    - apply put_uvarint_nonempty.
+    - unfold enc_bytes. rewrite app_length. pose proof (put_uvarint_nonempty (nlen bs)). lia.
+    - rewrite app_length. pose proof (put_uvarint_nonempty (nlen l)). lia.
+    - rewrite app_length. pose proof (put_uvarint_nonempty (nlen l)). lia.
+  Qed.
+
+  Lemma dec_imms_roundtrip : forall strict plen ims xs rest,
+    imms_wf ims xs = true -> nlen (flat_map enc_imm xs ++ rest) <= plen ->
+    dec_imms strict plen ims (flat_map enc_imm xs ++ rest) = Some (xs, rest).
+  Proof.
+    induction ims as [|im ims IH]; intros xs rest Hwf Hlen; destruct xs as [|x xs];
+      cbn [AvmCodec.imms_wf] in Hwf; try discriminate; [reflexivity|].
+    apply andb_true_iff in Hwf. destruct Hwf as [H1 H2].
+    cbn [flat_map AvmCodec.dec_imms]. rewrite <- app_assoc.
+    rewrite dec_imm_roundtrip; auto.
+    - rewrite IH; auto. cbn [flat_map] in Hlen. rewrite <- app_assoc in Hlen.
+      rewrite nlen_app in Hlen. lia.
+    - cbn [flat_map] in Hlen. rewrite <- app_assoc in Hlen. exact Hlen.
+  Qed.
+
+  (* the spec an instruction denotes is the one the disassembler selects *)
+  Lemma pick_spec_wf : forall v i op rest,
+    spec_of v i = Some op -> os_sub op = i_sub i ->
+    pick_spec v (enc_instr i ++ rest) = Some op.
+  Proof.
+    intros v i op rest Hs Hsub. unfold AvmCodec.spec_of, spec_at in Hs.
+    unfold AvmCodec.pick_spec, enc_instr. rewrite <- app_comm_cons.
+    destruct (tbl v (i_op i)) as [e subs] eqn:T.
+    destruct (i_sub i =? 0) eqn:E0.
+    - destruct subs; try discriminate.
+      destruct (String.eqb (os_name e) "") eqn:En; try discriminate. inversion Hs; subst.
+      reflexivity.
+    - cbn [app].
+      destruct subs as [|s0 subs']; [destruct (N.to_nat (i_sub i)); discriminate|].
+      set (subs := s0 :: subs') in *.
+      destruct ((N.to_nat (i_sub i) <? List.length subs)%nat && os_hasop (nth (N.to_nat (i_sub i)) subs zero_spec)
+                && negb (String.eqb (os_name (nth (N.to_nat (i_sub i)) subs zero_spec)) "")) eqn:C; try discriminate.
+      inversion Hs; subst op. apply andb_true_iff in C. destruct C as [C1 C2].
+      rewrite C1. apply negb_true_iff in C2. rewrite C2. reflexivity.
+  Qed.
+
+  Lemma wf_instr_inv : forall v i, wf_instr v i = true ->
+    exists op, spec_of v i = Some op /\ os_opcode op = i_op i /\ os_sub op = i_sub i /\
+               imms_wf (os_imms op) (i_imms i) = true.
+  Proof.
+    unfold AvmCodec.wf_instr. intros v i H.
+    destruct (spec_of v i) as [op|]; try discriminate. exists op.
+    repeat (apply andb_true_iff in H; destruct H as [H ?]).
+    apply N.eqb_eq in H. apply N.eqb_eq in H3. auto.
+  Qed.
+
+  Theorem instr_roundtrip : forall strict v plen i rest,
+    wf_instr v i = true -> nlen (enc_instr i ++ rest) <= plen ->
+    dec_instr strict v plen (enc_instr i ++ rest) = Some (i, rest).
+  Proof.
+    intros strict v plen i rest Hwf Hlen.
+    destruct (wf_instr_inv v i Hwf) as [op [Hs [Hop [Hsub Him]]]].
+    unfold AvmCodec.dec_instr. rewrite (pick_spec_wf v i op rest Hs Hsub).
+    unfold enc_instr in *. rewrite <- app_comm_cons in *. rewrite Hop, Hsub.
+    rewrite N.eqb_refl. destruct (i_sub i =? 0) eqn:E0.
+    - cbn [app andb negb]. rewrite andb_false_r.
+      rewrite dec_imms_roundtrip; auto.
+      + destruct i; cbn in *. reflexivity.
+      + cbn [app] in Hlen. rewrite nlen_cons in Hlen. lia.
+    - cbn [app tl]. rewrite N.eqb_refl. cbn [andb negb]. rewrite andb_false_r.
+      rewrite dec_imms_roundtrip; auto.
+      + destruct i; cbn in *. reflexivity.
+      + cbn [app] in Hlen. rewrite !nlen_cons in Hlen. lia.
+  Qed.
+
+  Lemma enc_instr_nonempty : forall i, (1 <= List.length (enc_instr i))%nat.
+  Proof. intros. unfold enc_instr. simpl. lia. Qed.
+
+  Lemma dec_instrs_roundtrip : forall strict v plen p fuel,
+    forallb (wf_instr v) p = true -> nlen (enc_instrs p) <= plen ->
+    (List.length (enc_instrs p) <= fuel)%nat ->
+    dec_instrs strict v plen fuel (enc_instrs p) = Some p.
+  Proof.
+    induction p as [|i p IH]; intros fuel Hwf Hlen Hf.
+    - destruct fuel; reflexivity.
+    - cbn [forallb] in Hwf. apply andb_true_iff in Hwf. destruct Hwf as [H1 H2].
+      unfold enc_instrs in *. cbn [flat_map] in *.
+      pose proof (enc_instr_nonempty i) as Hne.
+      destruct (enc_instr i ++ flat_map enc_instr p) as [|b r] eqn:E.
+      { apply (f_equal (@List.length N)) in E. rewrite app_length in E. simpl in E. lia. }
+      rewrite <- E in *. destruct fuel as [|fuel]; [rewrite app_length in Hf; lia|].
+      cbn [AvmCodec.dec_instrs]. rewrite E. rewrite <- E.
+      rewrite instr_roundtrip; auto.
+      rewrite IH; auto.
+      + rewrite nlen_app in Hlen. lia.
+      + rewrite app_length in Hf. lia.
+  Qed.
+
+  Theorem prog_roundtrip : forall strict v p,
+    wf_prog v p = true -> dec_prog strict (enc_prog v p) = Some (v, p).
+  Proof.
+    intros strict v p H. unfold AvmCodec.wf_prog in H.
+    apply andb_true_iff in H. destruct H as [H H3]. apply andb_true_iff in H. destruct H as [H1 H2].
+    unfold AvmCodec.dec_prog, enc_prog. rewrite uvarint_roundtrip by auto.
+    destruct (logic_ver <? v) eqn:E; [apply N.ltb_lt in E; apply N.leb_le in H1; lia|].
+    rewrite dec_instrs_roundtrip; auto.
+    rewrite nlen_app. lia.
+  Qed.
+
+  (* ---------------------------------------------------------------- canonical bytes re-encode *)
+  Lemma dec_imm_strict_inv : forall plen im buf x rest,
+    bytes_ok buf -> dec_imm true plen im buf = Some (x, rest) -> buf = enc_imm x ++ rest.
+  Proof.
+    intros plen im buf x rest Hb H. unfold AvmCodec.dec_imm in H.
+    destruct (kind_of (im_kind im)) eqn:K.
+    - destruct buf as [|b r]; try discriminate.
+      destruct (field_named grp (im_group im) b); try discriminate. inversion H; subst. reflexivity.
+    - destruct buf as [|b0 [|b1 r]]; try discriminate. inversion H; subst.
+      inversion Hb as [|? ? Hb0 Hb']; subst. inversion Hb' as [|? ? Hb1 Hb'']; subst.
+      cbn [enc_imm]. rewrite i16_reencode by auto. reflexivity.
+    - destruct (get_uvarint true buf) as [[u r]|] eqn:E; try discriminate. inversion H; subst.
+      apply get_uvarint_strict_inv in E. exact E.
+    - destruct (dec_bytes true buf) as [[bs r]|] eqn:E; try discriminate. inversion H; subst.
+      apply dec_bytes_strict_inv in E. exact E.
+    - destruct (get_uvarint true buf) as [[n r]|] eqn:E; try discriminate.
+      destruct (plen <? n); try discriminate.
+      destruct (dec_ints true (N.to_nat n) r) as [[l r']|] eqn:E2; try discriminate. inversion H; subst.
+      apply get_uvarint_strict_inv in E. apply dec_ints_strict_inv in E2. destruct E2 as [E3 E4].
+      subst. cbn [enc_imm]. rewrite <- app_assoc. f_equal. f_equal. unfold nlen. rewrite E4.
+      symmetry. apply N2Nat.id.
+    - destruct (get_uvarint true buf) as [[n r]|] eqn:E; try discriminate.
+      destruct (plen <? n); try discriminate.
+      destruct (dec_bytess true (N.to_nat n) r) as [[l r']|] eqn:E2; try discriminate. inversion H; subst.
+      apply get_uvarint_strict_inv in E. apply dec_bytess_strict_inv in E2. destruct E2 as [E3 E4].
+      subst. cbn [enc_imm]. rewrite <- app_assoc. f_equal. f_equal. unfold nlen. rewrite E4.
+      symmetry. apply N2Nat.id.
+    - destruct buf as [|n r]; try discriminate.
+      destruct (dec_i16s (N.to_nat n) r) as [[l r']|] eqn:E2; try discriminate. inversion H; subst.
+      inversion Hb; subst.
+      apply dec_i16s_strict_inv in E2; auto. destruct E2 as [E3 [E4 _]].
+      subst. cbn [enc_imm]. rewrite <- app_comm_cons. f_equal. unfold nlen. rewrite E4.
+      symmetry. apply N2Nat.id.
+    - destruct (get_varint true buf) as [[z r]|] eqn:E; try discriminate. inversion H; subst.
+      apply get_varint_strict_inv in E. exact E.
+    - discriminate.
+  Qed.
+
+  Lemma dec_imms_strict_inv : forall plen ims buf xs rest,
+    bytes_ok buf -> dec_imms true plen ims buf = Some (xs, rest) -> buf = flat_map enc_imm xs ++ rest.
+  Proof.
+    induction ims as [|im ims IH]; intros buf xs rest Hb H; cbn [AvmCodec.dec_imms] in H.
+    - inversion H; subst. reflexivity.
+    - destruct (dec_imm true plen im buf) as [[x r]|] eqn:E; try discriminate.
+      destruct (dec_imms true plen ims r) as [[xs' r']|] eqn:E2; try discriminate.
+      inversion H; subst. apply dec_imm_strict_inv in E; auto. subst buf.
+      apply bytes_ok_app in Hb. destruct Hb as [_ Hb].
+      apply IH in E2; auto. subst r. cbn [flat_map]. rewrite <- app_assoc. reflexivity.
+  Qed.
+
+  Lemma dec_instr_strict_inv : forall v plen buf i rest,
+    bytes_ok buf -> dec_instr true v plen buf = Some (i, rest) -> buf = enc_instr i ++ rest.
+  Proof.
+    intros v plen buf i rest Hb H. unfold AvmCodec.dec_instr in H.
+    destruct (pick_spec v buf) as [op|]; try discriminate.
+    destruct buf as [|b0 r]; try discriminate.
+    cbn [andb] in H.
+    destruct (os_opcode op =? b0) eqn:Eop; cbn [andb negb] in H; try discriminate.
+    apply N.eqb_eq in Eop. inversion Hb as [|? ? _ Hr]; subst.
+    destruct (os_sub op =? 0) eqn:E0.
+    - cbn [negb] in H.
+      destruct (dec_imms true plen (os_imms op) r) as [[xs rest']|] eqn:E; try discriminate.
+      inversion H; subst. apply dec_imms_strict_inv in E; auto. subst r.
+      unfold enc_instr. cbn [i_op i_sub i_imms]. rewrite E0. reflexivity.
+    - destruct r as [|s r']; cbn [negb] in H; try discriminate.
+      destruct (s =? os_sub op) eqn:Es; cbn [negb] in H; try discriminate.
+      apply N.eqb_eq in Es. cbn [tl] in H. inversion Hr; subst.
+      destruct (dec_imms true plen (os_imms op) r') as [[xs rest']|] eqn:E; try discriminate.
+      inversion H; subst. apply dec_imms_strict_inv in E; auto. subst r'.
+      unfold enc_instr. cbn [i_op i_sub i_imms]. rewrite E0. reflexivity.
+  Qed.
+
+  Lemma dec_instrs_strict_inv : forall v plen fuel buf p,
+    bytes_ok buf -> dec_instrs true v plen fuel buf = Some p -> buf = enc_instrs p.
+  Proof.
+    induction fuel as [|fuel IH]; intros buf p Hb H; destruct buf as [|b r]; cbn [AvmCodec.dec_instrs] in H;
+      try discriminate; try (inversion H; subst; reflexivity).
+    destruct (dec_instr true v plen (b :: r)) as [[i rest]|] eqn:E; try discriminate.
+    destruct (dec_instrs true v plen fuel rest) as [l|] eqn:E2; try discriminate.
+    inversion H; subst. apply dec_instr_strict_inv in E; auto. rewrite E in Hb.
+    apply bytes_ok_app in Hb. destruct Hb as [_ Hb]. apply IH in E2; auto.
+    rewrite E. subst rest. reflexivity.
+  Qed.
+
+  (* re-encode stability: bytes that decode canonically are reproduced exactly *)
+  Theorem reencode_canonical : forall b v p,
+    bytes_ok b -> dec_prog true b = Some (v, p) -> enc_prog v p = b.
+  Proof.
+    intros b v p Hb H. unfold AvmCodec.dec_prog in H.
+    destruct (get_uvarint true b) as [[v' rest]|] eqn:E; try discriminate.
+    destruct (logic_ver <? v'); try discriminate.
+    destruct (dec_instrs true v' (nlen b) (List.length rest) rest) as [p'|] eqn:E2; try discriminate.
+    inversion H; subst. apply get_uvarint_strict_inv in E. subst b.
+    apply bytes_ok_app in Hb. destruct Hb as [_ Hb].
+    apply dec_instrs_strict_inv in E2; auto. unfold enc_prog. rewrite <- E2. reflexivity.
+  Qed.
+
+  (* ---------------------------------------------------------------- strict implies lax *)
+  Lemma dec_imm_strict_lax : forall plen im buf r,
+    dec_imm true plen im buf = Some r -> dec_imm false plen im buf = Some r.
+  Proof.
+    intros plen im buf r H. unfold AvmCodec.dec_imm in *.
+    destruct (kind_of (im_kind im)); auto.
+    - destruct (get_uvarint true buf) as [[u r']|] eqn:E; try discriminate.
+      rewrite (get_uvarint_strict_lax _ _ E). auto.
+    - destruct (dec_bytes true buf) as [[u r']|] eqn:E; try discriminate.
+      rewrite (dec_bytes_strict_lax _ _ E). auto.
+    - destruct (get_uvarint true buf) as [[n r']|] eqn:E; try discriminate.
+      rewrite (get_uvarint_strict_lax _ _ E). destruct (plen <? n); auto.
+      destruct (dec_ints true (N.to_nat n) r') as [[l r'']|] eqn:E2; try discriminate.
+      rewrite (dec_ints_strict_lax _ _ _ E2). auto.
+    - destruct (get_uvarint true buf) as [[n r']|] eqn:E; try discriminate.
+      rewrite (get_uvarint_strict_lax _ _ E). destruct (plen <? n); auto.
+      destruct (dec_bytess true (N.to_nat n) r') as [[l r'']|] eqn:E2; try discriminate.
+      rewrite (dec_bytess_strict_lax _ _ _ E2). auto.
+    - destruct (get_varint true buf) as [[u r']|] eqn:E; try discriminate.
+      rewrite (get_varint_strict_lax _ _ E). auto.
+  Qed.
+
+  Lemma dec_imms_strict_lax : forall plen ims buf r,
+    dec_imms true plen ims buf = Some r -> dec_imms false plen ims buf = Some r.
+  Proof.
+    induction ims as [|im ims IH]; intros buf r H; cbn [AvmCodec.dec_imms] in *; auto.
+    destruct (dec_imm true plen im buf) as [[x r']|] eqn:E; try discriminate.
+    rewrite (dec_imm_strict_lax _ _ _ _ E).
+    destruct (dec_imms true plen ims r') as [[xs r'']|] eqn:E2; try discriminate.
+    rewrite (IH _ _ E2). auto.
+  Qed.
+
+  Lemma dec_instr_strict_lax : forall v plen buf r,
+    dec_instr true v plen buf = Some r -> dec_instr false v plen buf = Some r.
+  Proof.
+    intros v plen buf r H. unfold AvmCodec.dec_instr in *.
+    destruct (pick_spec v buf) as [op|]; try discriminate.
+    destruct buf as [|b0 rr]; try discriminate.
+    cbn [andb] in *.
+    match type of H with (if negb ?c then _ else _) = _ => destruct c; cbn [negb] in H; try discriminate end.
+    destruct (dec_imms true plen (os_imms op) (if os_sub op =? 0 then rr else tl rr)) as [[xs rest]|] eqn:E;
+      try discriminate.
+    rewrite (dec_imms_strict_lax _ _ _ _ E). auto.
+  Qed.
+
+  Lemma dec_instrs_strict_lax : forall v plen fuel buf p,
+    dec_instrs true v plen fuel buf = Some p -> dec_instrs false v plen fuel buf = Some p.
+  Proof.
+    induction fuel as [|fuel IH]; intros buf p H; destruct buf as [|b r]; cbn [AvmCodec.dec_instrs] in *; auto.
+    destruct (dec_instr true v plen (b :: r)) as [[i rest]|] eqn:E; try discriminate.
+    rewrite (dec_instr_strict_lax _ _ _ _ E).
+    destruct (dec_instrs true v plen fuel rest) as [l|] eqn:E2; try discriminate.
+    rewrite (IH _ _ E2). auto.
+  Qed.
+
+  Theorem dec_prog_strict_lax : forall b r, dec_prog true b = Some r -> dec_prog false b = Some r.
+  Proof.
+    intros b r H. unfold AvmCodec.dec_prog in *.
+    destruct (get_uvarint true b) as [[v rest]|] eqn:E; try discriminate.
+    rewrite (get_uvarint_strict_lax _ _ E). destruct (logic_ver <? v); auto.
+    destruct (dec_instrs true v (nlen b) (List.length rest) rest) as [p|] eqn:E2; try discriminate.
+    rewrite (dec_instrs_strict_lax _ _ _ _ _ E2). auto.
+  Qed.
+
+  (* the encoder only produces bytes when the instruction is well formed *)
+  Lemma put_uvarint_f_bytes : forall f x, x < 2 ^ (7 * N.of_nat f + 8) -> bytes_ok (put_uvarint_f f x).
+  Proof.
+    induction f as [|f IH]; intros x H.
+    - change (2 ^ (7 * N.of_nat 0 + 8)) with 256 in H. repeat constructor. exact H.
+    - rewrite put_uvarint_f_S. destruct (x <? 128) eqn:E.
+      + apply N.ltb_lt in E. repeat constructor. lia.
+      + constructor.
+        * assert (x mod 128 < 128) by (apply N.mod_lt; lia). lia.
+        * apply IH. replace (7 * N.of_nat (S f) + 8) with (7 + (7 * N.of_nat f + 8)) in H by lia.
+          rewrite N.pow_add_r in H. change (2 ^ 7) with 128 in H.
+          apply N.div_lt_upper_bound; lia.
+  Qed.
+End CodecProofs.
